@@ -271,6 +271,25 @@ func (m *UWModel) classifyLink(linkPath []string, target string) string {
 		}
 		return ClLinkLex
 	}
+	// a target that rises above the destination on its way, even if its text comes back in by
+	// the destination's own name ("../dst/a"): it climbs out with '..', and where the
+	// destination is reached through a link the name it comes back by is another place
+	depth := len(linkPath) - 1
+	for _, sg := range segs(target) {
+		switch sg {
+		case ".":
+		case "..":
+			depth--
+		default:
+			depth++
+		}
+		if depth < 0 {
+			if m.allowed(cleanAbs(lex)) {
+				return ClOK
+			}
+			return ClLinkLex
+		}
+	}
 	// physical in the model tree
 	if out := m.physEscapes(linkPath[:len(linkPath)-1], segs(target), 0); out {
 		return ClLinkPhys
